@@ -68,7 +68,7 @@ fn main() {
             let files: Vec<String> = ch.files.iter().map(|p| p.display().to_string()).collect();
             println!(
                 "{}",
-                json!({"prop": prop, "tier": tier, "seed": seed, "events": ch.total, "kinds": ch.kinds, "files": files,
+                json!({"prop": prop, "tier": tier, "seed": seed, "events": ch.total, "duplicates_dropped": ch.duplicates, "kinds": ch.kinds, "files": files,
                        "samples": ch.samples, "features": if cfg!(feature = "full") { "default" } else { "none" },
                        "gen_wall_s": t0.elapsed().as_secs_f64()})
             );
